@@ -30,6 +30,7 @@ from ..expr import lambda_ok
 from ..execworld import ExecImpl, node_s
 from ..impl import mx, quiet, err_kind
 from ..shadow import real_chain
+from .. import c05_argfail
 from modelx.core.errors import FormulaError, NoneReturnedError
 
 CFG = {
@@ -684,6 +685,9 @@ def _report(out, got, want, hist, case, kind):
         hist, key=key)
 
 
+ARGFAIL_ASPECTS = ("carry", "traceback")
+
+
 def run(ctx, out):
     stats = X.run_family(ctx, out, CFG, oracle, 200, 3000,
                  structured=scenarios(ctx.rng("scenarios"), ctx.n(40, 400)) +
@@ -692,10 +696,20 @@ def run(ctx, out):
     shared_exception_histories(ctx, out, stats)
     for k in ("shared_exc_histories", "shared_exc_evaluations", "shared_exc_failures_examined"):
         out.coverage["input_distribution"][k] = stats[k]
+    # chains through cells called with arguments of every kind (unhashable ones: uncached cells): get_error() is the original
+    # exception, get_traceback() is obtainable, printable and lists (element, arguments, line) of the executing chain
+    c05_argfail.run_all(ctx, out, stats, "C17", ARGFAIL_ASPECTS, n_random=ctx.n(20, 400), fresh_every=10 ** 9)
+    for k in sorted(stats):
+        if k.startswith("argfail"):
+            out.coverage["input_distribution"][k] = stats[k]
     out.coverage["rule"] += ("; histories of top-level evaluations (successful ones in which formulas handled failures, failing "
                              "ones) over formulas raising exception OBJECTS shared between evaluations (held by a reference "
                              "read by name / path / at model level, by a cached value) - expected chain from the "
-                             "definitions alone")
+                             "definitions alone; family arg-failure (harness/mxh/c05_argfail.py): chains through a cached / "
+                             "uncached callee called with an int / str / tuple / list / dict / set, failing itself or 1-3 cells "
+                             "below, called directly or by a cached / uncached caller building the argument, eight exception "
+                             "kinds, histories with earlier failures and successes - traceback entries compared by (element, "
+                             "arguments by equality, line) and repr()'d")
     out.assumptions.append("line numbers are CPython's; they are checked against the interpreter's own traceback of "
                            "the original exception by the oracle, not modelled in Lean")
 
@@ -705,5 +719,8 @@ def replay(ctx, payload, out):
     h = payload.get("history") or {}
     if isinstance(h, dict) and h.get("scenario") == "shared-exception":
         run_shared_history(h, out, collections.Counter())
+        return
+    if isinstance(h, dict) and h.get("scenario") == c05_argfail.SCENARIO:
+        c05_argfail.replay(h, out, "C17", ARGFAIL_ASPECTS)
         return
     X.replay_family(ctx, payload, out, CFG, oracle)
